@@ -21,7 +21,10 @@ RULE = (
     "function value's type and every FuncDefn's yielded outputs with its declaration.  A second family captures affine "
     "values (array[int,3], a struct with an array field, Option[array]) as borrowed / owned parameters or locals, used once, "
     "reused after the block (second with block or plain call), captured through nested with blocks, two at once: must be "
-    "accepted, lower, and be well-typed; sizes of call inputs/outputs compared with the model.  thorough: additionally every modifier list of "
+    "accepted, lower, and be well-typed; sizes of call inputs/outputs compared with the model.  A third family uses "
+    "non-trivial expressions as modifier arguments (conditional expressions, and/or/not, chained comparisons, walrus, "
+    "comptime(...), calls, subscripts with conditional indices) for power exponents and control arguments: must compile, "
+    "with the source's number of powers, control arities and dagger parity.  thorough: additionally every modifier list of "
     "length <= 4 over {dagger, power(p0), power(p1), control(c0), control(c1,c2), control(ca)} with distinct controls.  "
     "non-trivial = at least 2 modifiers of at least 2 kinds, or a repeated kind."
 )
@@ -459,6 +462,114 @@ def tie_affine(ctx, cs):
             ctx.broke(f"correspondence callArgs/handBack sizes: model={sorted(model_shapes.get(i, []))} real={shapes}\n{src}")
 
 
+# ------------------------------------------------------------------ modifier arguments that are non-trivial expressions
+POW_EXPRS = [
+    "n if b else m", "comptime(N)", "comptime(N + 1)", "getn()", "getn() + m", "(k := n)", "n if (b and c) else m",
+    "n if (b or c) else m", "n if not b else m", "pick(b, n, m)", "pick(x < y, n, 3)", "pick(x < y < z, n, m)", "nat(x)",
+    "n * m", "(n if b else m) if c else getn()", "xs[0]", "xs[0 if b else 1]", "pick(b and (x < y or c), getn(), m)", "n",
+]
+CTRL_EXPRS = [("c0", 1), ("qs[0]", 1), ("qs[0 if b else 1]", 1), ("c0, qs[1]", 2), ("qs", 3), ("c1, c0", 2), ("qs[2 if (b and c) else 0]", 1)]
+
+
+def modexpr_source(case):
+    items = []
+    for m in case["modexpr"]:
+        if m[0] == "d":
+            items.append("dagger")
+        elif m[0] == "p":
+            items.append(f"power({POW_EXPRS[m[1]]})")
+        else:
+            items.append(f"control({CTRL_EXPRS[m[1]][0]})")
+    return (
+        "N = 3\n@guppy.declare(unitary=True)\ndef u(q: qubit) -> None: ...\n@guppy.declare\ndef getn() -> nat: ...\n"
+        "@guppy.declare\ndef pick(b: bool, n: nat, m: nat) -> nat: ...\n"
+        "@guppy\ndef test(q: qubit, c0: qubit, c1: qubit, qs: array[qubit, 3], n: nat, m: nat, b: bool, c: bool, x: int, y: int, "
+        "z: int, xs: array[nat, 2]) -> None:\n"
+        f"    with {', '.join(items)}:\n        u(q)\n"
+    )
+
+
+def modexpr_cases(ctx):
+    out = [{"modexpr": [["p", i]]} for i in range(len(POW_EXPRS))] + [{"modexpr": [["c", i]]} for i in range(len(CTRL_EXPRS))]
+    rng = ctx.rng
+    for _ in range(ctx.n(40, 600)):
+        ms, used_ctrl = [], False
+        for _ in range(rng.choice([2, 2, 3, 4])):
+            r = rng.random()
+            if r < 0.5:
+                ms.append(["p", rng.randrange(len(POW_EXPRS))])
+            elif r < 0.75 and not used_ctrl:
+                used_ctrl = True          # one control item: the control expressions share qubits
+                ms.append(["c", rng.randrange(len(CTRL_EXPRS))])
+            else:
+                ms.append(["d"])
+        if sum(1 for m in ms if m[0] == "p" and "k :=" in POW_EXPRS[m[1]]) > 1:
+            continue
+        out.append({"modexpr": ms})
+    return out
+
+
+def tie_modexpr(ctx, cs):
+    """exponents / control arguments that the CFG builder has to lift or rewrite: the block must compile, and the emitted
+    chain must have the source's powers (count, order is not observable without operand identity), control arities and
+    dagger parity; compared with the model's emission by kind and arity"""
+    global _enabled
+    import re
+
+    import feed
+    import guppylang
+
+    if not _enabled:
+        guppylang.enable_experimental_features()
+        _enabled = True
+    lines = []
+    for c in cs:
+        sx, cid = [], 0
+        for m in c["modexpr"]:
+            if m[0] == "d":
+                sx.append("d")
+            elif m[0] == "p":
+                sx.append("(p 0)")
+            else:
+                sx.append(f"(c {cid} {CTRL_EXPRS[m[1]][1]})")
+                cid += 1
+        lines.append("(emit " + " ".join(sx) + ")")
+    model = ctx.driver(DRIVER, lines)
+    prelude = feed.PRELUDE + "from guppylang.std.quantum import qubit\n"
+    for c, mv in zip(cs, model):
+        src = modexpr_source(c)
+        key = "modexpr:" + json.dumps(c["modexpr"])
+        ctx.count(key, nontrivial=True, kind="modexpr:" + "".join(sorted({m[0] for m in c["modexpr"]})))
+        replay = {"case": c, "source": src, "model_emit": mv}
+        m_ = feed.load(src, prelude=prelude)
+        try:
+            kind, exc = feed.check_outcome(m_.test)
+            if kind != "ok":
+                ctx.violation(key, f"a with block whose modifier arguments are expressions is not compiled: {kind}:{feed.err_class(exc)}\n{src}", replay)
+                continue
+            try:
+                h = feed.lower(m_.test).hugr
+            except BaseException as e:  # noqa: BLE001
+                ctx.violation(key, f"lowering failed: {type(e).__name__}: {str(e)[:200]}\n{src}", replay)
+                continue
+        finally:
+            feed.unload(m_)
+        bad, _shapes = typing_problems(h)
+        names = [feed.op_name(h[n].op) for n in h]
+        import hugr.ops as ops
+        ctrl = sorted(int(h[n].op.args[0].n) for n in h if feed.op_name(h[n].op).endswith("ControlModifier"))
+        got = (sum(1 for x in names if x.endswith("DaggerModifier")), sum(1 for x in names if x.endswith("PowerModifier")), ctrl)
+        want = (sum(1 for m in c["modexpr"] if m[0] == "d") % 2, sum(1 for m in c["modexpr"] if m[0] == "p"),
+                sorted(CTRL_EXPRS[m[1]][1] for m in c["modexpr"] if m[0] == "c"))
+        if got != want:
+            bad.append(f"(daggers, powers, control arities) = {got}, source has {want}")
+        if bad:
+            ctx.violation(key, "lowered with block does not match its source: " + "; ".join(bad) + "\n" + src, dict(replay, problems=bad))
+        mgot = (mv.split().count("d"), len(re.findall(r"\(p ", mv)), sorted(int(x) for x in re.findall(r"\(c \d+ (\d+)\)", mv)))
+        if mgot != got:
+            ctx.broke(f"correspondence emit (kinds/arities): model={mgot} real={got}\n{src}")
+
+
 # ------------------------------------------------------------------ generator
 def rand_case(rng):
     n = rng.choice([1, 1, 2, 2, 3, 3, 4, 5, 6, 7])
@@ -541,6 +652,10 @@ def tie(ctx):
     if ctx.replay_in and "affine" in ctx.replay_in["replay"].get("case", {}):
         acs.append(ctx.replay_in["replay"]["case"])
     tie_affine(ctx, acs)
+    mcs = modexpr_cases(ctx)
+    if ctx.replay_in and "modexpr" in ctx.replay_in["replay"].get("case", {}):
+        mcs.append(ctx.replay_in["replay"]["case"])
+    tie_modexpr(ctx, mcs)
     cs = cases(ctx)
     # the model needs the captured-variable order the checker produced (an input of the compiler); the real lowering
     # is therefore run first
